@@ -523,7 +523,7 @@ LawEscape(cs) ==
 (*    TLC cannot do 32/64-bit word arithmetic at useful speed, so the      *)
 (*    functions themselves are not transcribed.                            *)
 (***************************************************************************)
-\* ---- generated by work/c20/gen_tokens.py (digests) ----
+\* ---- generated by lib/c20_util.py (digests) ----
 DigestTable == <<
   \* empty (RFC 1321 A.5 / FIPS 180-4 / FIPS 202)
   [in |-> <<>>, nbytes |-> 0,
